@@ -158,6 +158,13 @@ func NewSession(p *Proc, c *Ctx, timeoutMS int) *Session {
 
 func (s *Session) Reset() {
 	s.pr = NewPrinter()
+	if s.P.dead {
+		// the process was killed (hard deadline) or died: start a fresh one in place
+		if np, err := Start(s.P.be); err == nil {
+			np.Log, np.Time, np.Calls = s.P.Log, s.P.Time, s.P.Calls
+			*s.P = *np
+		}
+	}
 	s.P.Send("(reset)\n(set-option :produce-models true)\n(set-logic ALL)\n")
 	if s.P.be.TimeoutCmd != nil {
 		s.P.Send(s.P.be.TimeoutCmd(s.TimeMS))
@@ -200,7 +207,12 @@ func (s *Session) Check(extra []*Term, wantModel bool, syms []*Term) (Result, Mo
 	}
 	sb.WriteString("(check-sat)\n")
 	s.P.Send(sb.String())
+	// hard deadline: a solver that ignores its own time limit is killed; the answer is unknown
+	// and the process is replaced at the next Reset
+	proc := s.P.cmd.Process
+	timer := time.AfterFunc(time.Duration(2*s.TimeMS+5000)*time.Millisecond, func() { proc.Kill() })
 	ans, err := s.P.readSexp()
+	timer.Stop()
 	res := Unknown
 	if err == nil {
 		switch {
